@@ -12,7 +12,9 @@ of C05), the position coefficients are `exp(−2πi k·r₀)` (grid and custom s
 wave by `r₀`, the plane-wave amplitude for interpolation 1 is `1/N`, and the CTF is evaluated at the polar
 coordinates of the wave vector.
 Part C (index arithmetic, `Gen/Prism.lean` + `Model/Prism.lean`): `wrapped_slices` selects the periodic window for
-every start (any number of periods outside the array).  Interpolation > 1 is `_partial`: see the end of the file.
+every start (any number of periods outside the array); `wrapped_crop_2d` returns the periodic 2-D window through either
+of its paths; the pipeline `minimum_crop → wrapped_crop_2d → batch_crop_2d` gives every position its own periodic window
+independently of the batch.  Interpolation > 1 stays `_partial` (physical statement): see the end of the file.
 -/
 import AbtemVerif.Model.Prism
 import AbtemVerif.Gen.PrismR
@@ -286,7 +288,8 @@ axis — and every window that wraps at most once, the two slices select exactly
 theorem wrapped_slices_index (start : Int) (size n : Nat) (hn : 0 < n)
     (h2 : start % (n : Int) + size ≤ 2 * n) :
     ∃ a b, wrappedSlices start (start + size) n = .ok (a, b) ∧
-      a.indices n ++ b.indices n = (List.range size).map fun i => ((start + (i : Nat)) % (n : Int)).toNat := by
+      a.indices n ++ b.indices n = (List.range size).map (fun i => ((start + (i : Nat)) % (n : Int)).toNat) ∧
+      (0 < size → a.indices n ≠ []) := by
   obtain ⟨s, hs⟩ : ∃ s : Nat, start % (n : Int) = s := ⟨(start % (n : Int)).toNat, by
     have := Int.emod_nonneg start (by omega : (n : Int) ≠ 0); omega⟩
   have hsn : s < n := by
@@ -304,7 +307,13 @@ theorem wrapped_slices_index (start : Int) (size n : Nat) (hn : 0 < n)
   simp only [hno, decide_false, Bool.false_eq_true, if_false]
   by_cases hw : ((s + size : Nat) : Int) > (n : Int)
   · simp only [hw, decide_true, if_true]
-    refine ⟨_, _, rfl, ?_⟩
+    refine ⟨_, _, rfl, ?_, ?_⟩
+    swap
+    · intro _
+      rw [indices_open s n hsn.le]
+      intro h
+      have := congrArg List.length h
+      simp at this; omega
     have e1 : ((s + size : Nat) : Int) - (n : Int) = ((s + size - n : Nat) : Int) := by omega
     rw [e1, indices_open s n hsn.le]
     have := indices_some 0 (s + size - n) n (by omega) (by omega)
@@ -322,7 +331,13 @@ theorem wrapped_slices_index (start : Int) (size n : Nat) (hn : 0 < n)
       have : ((s + (n - s + i) : Nat) : Int) = (i : Int) + (n : Int) := by omega
       rw [this, Int.add_emod_right, Int.emod_eq_of_lt (by omega) (by omega)]; omega
   · simp only [hw, decide_false, Bool.false_eq_true, if_false]
-    refine ⟨_, _, rfl, ?_⟩
+    refine ⟨_, _, rfl, ?_, ?_⟩
+    swap
+    · intro hpos
+      rw [indices_some s (s + size) n (by omega) (by omega)]
+      intro h
+      have := congrArg List.length h
+      simp at this; omega
     rw [indices_some s (s + size) n (by omega) (by omega)]
     have := indices_some 0 0 n (by omega) (by omega)
     simp only [Nat.cast_zero] at this
@@ -349,23 +364,290 @@ theorem wrapped_slices_raises_iff (start : Int) (size n : Nat) (hn : 0 < n) :
     · intro hc; split at hc <;> simp at hc
     · intro hc; exact hc.elim
 
-/- Full statement for interpolation > 1 (not proved as a whole): for every scattering matrix, batch of positions and
-   CTF, `SMatrixArray.reduce` returns, for position `p`, the window `w₀ × w₁` of the full superposition
-   `Σ_k c_k(p) S_k` whose corner is `rint(p / sampling − w // 2)` taken periodically
-   (`Model/Prism.lean: expectedWindow`), independently of the other positions of the batch; in vacuum this window
-   is the probe of the window-sized cell.
-   Proved below: along each axis the two slices of `wrapped_slices` select that periodic window for every corner.
-   Missing: the 2-D block assembly of `wrapped_crop_2d` (A/B/C/D concatenation and its padding fallback),
-   `minimum_crop` and `batch_crop_2d` are executable hand models (`Model/Prism.lean: wrappedCrop2d, minimumCrop,
-   batchCrop, reduceWindows`) tied to the real `_reduce_to_waves` and to `expectedWindow` by correspondence only;
-   the physical statement is checked by the conformance oracle. -/
-theorem reduce_window_partial (c₀ c₁ : Int) (s₀ s₁ n₀ n₁ : Nat) (h₀ : 0 < n₀) (h₁ : 0 < n₁)
-    (w₀ : c₀ % (n₀ : Int) + s₀ ≤ 2 * n₀) (w₁ : c₁ % (n₁ : Int) + s₁ ≤ 2 * n₁) :
-    (∃ a c, wrappedSlices c₀ (upperCorner c₀ s₀ c₁ s₁).1 n₀ = .ok (a, c) ∧
-      a.indices n₀ ++ c.indices n₀ = (List.range s₀).map fun i => ((c₀ + (i : Nat)) % (n₀ : Int)).toNat) ∧
-    (∃ b d, wrappedSlices c₁ (upperCorner c₀ s₀ c₁ s₁).2 n₁ = .ok (b, d) ∧
-      b.indices n₁ ++ d.indices n₁ = (List.range s₁).map fun j => ((c₁ + (j : Nat)) % (n₁ : Int)).toNat) :=
-  ⟨wrapped_slices_index c₀ s₀ n₀ h₀ w₀, wrapped_slices_index c₁ s₁ n₁ h₁ w₁⟩
+/-! ### the two-dimensional crop -/
+
+variable {α : Type}
+
+lemma size2_take2 (x : Nat → Nat → α) (r c : List Nat) : size2 (take2 x r c) = r.length * c.length := by
+  unfold size2 take2
+  induction r with
+  | nil => simp
+  | cons a r ih =>
+    simp only [List.map_cons, List.sum_cons, List.length_cons, List.length_map] at ih ⊢
+    rw [ih, Nat.succ_mul, Nat.add_comm]
+
+lemma take2_row_length (x : Nat → Nat → α) (r c : List Nat) : ∀ row ∈ take2 x r c, row.length = c.length := by
+  intro row hrow; simp only [take2, List.mem_map] at hrow; obtain ⟨i, _, rfl⟩ := hrow; simp
+
+lemma vcat_take2 (x : Nat → Nat → α) (r1 r2 c : List Nat) :
+    vcat (take2 x r1 c) (take2 x r2 c) = .ok (take2 x (r1 ++ r2) c) := by
+  unfold vcat
+  have h : take2 x r1 c ++ take2 x r2 c = take2 x (r1 ++ r2) c := by simp [take2]
+  rw [h]
+  have : (take2 x (r1 ++ r2) c).all (fun r => r.length = ((take2 x (r1 ++ r2) c).headD []).length) = true := by
+    rw [List.all_eq_true]
+    intro row hrow
+    have hh : ((take2 x (r1 ++ r2) c).headD []).length = c.length := by
+      cases hq : take2 x (r1 ++ r2) c with
+      | nil => rw [hq] at hrow; simp at hrow
+      | cons q qs =>
+        show q.length = c.length
+        exact take2_row_length x (r1 ++ r2) c q (by rw [hq]; simp)
+    rw [take2_row_length x _ c row hrow, hh]; simp
+  rw [if_pos this]
+
+lemma hcat_take2 (x : Nat → Nat → α) (r c1 c2 : List Nat) :
+    hcat (take2 x r c1) (take2 x r c2) = .ok (take2 x r (c1 ++ c2)) := by
+  unfold hcat
+  have : (take2 x r c1).length = (take2 x r c2).length := by simp [take2]
+  rw [if_pos this]
+  congr 1
+  clear this
+  unfold take2
+  induction r with
+  | nil => simp
+  | cons a r ih => simp only [List.map_cons, List.zipWith_cons_cons, ih, List.map_append]
+
+lemma vcatOr_take2 (x : Nat → Nat → α) (r1 r2 c : List Nat) (h1 : r1 ≠ []) (hc : c ≠ []) :
+    vcatOr (take2 x r1 c) (take2 x r2 c) = .ok (take2 x (r1 ++ r2) c) := by
+  unfold vcatOr
+  simp only [size2_take2]
+  have l1 : 0 < r1.length := List.length_pos_iff.mpr h1
+  have lc : 0 < c.length := List.length_pos_iff.mpr hc
+  rw [if_neg (Nat.mul_ne_zero (by omega) (by omega))]
+  by_cases h2 : r2 = []
+  · subst h2; simp
+  · have l2 : 0 < r2.length := List.length_pos_iff.mpr h2
+    rw [if_neg (Nat.mul_ne_zero (by omega) (by omega)), vcat_take2]
+
+/-- with empty columns both blocks are empty and the first shortcut returns the second block -/
+lemma vcatOr_take2_nil (x : Nat → Nat → α) (r1 r2 : List Nat) :
+    vcatOr (take2 x r1 []) (take2 x r2 []) = .ok (take2 x r2 []) := by
+  unfold vcatOr
+  simp [size2_take2]
+
+/-- the block assembly of `wrapped_crop_2d` for non-empty leading index lists -/
+lemma assemble_eq (x : Nat → Nat → α) (ai ci bi di : List Nat) (ha : ai ≠ []) (hb : bi ≠ []) :
+    assemble x ai ci bi di = .ok (take2 x (ai ++ ci) (bi ++ di)) := by
+  have la : 0 < ai.length := List.length_pos_iff.mpr ha
+  have lb : 0 < bi.length := List.length_pos_iff.mpr hb
+  unfold assemble
+  rw [vcatOr_take2 x ai ci bi ha hb]
+  by_cases hd : di = []
+  · subst hd
+    rw [vcatOr_take2_nil]
+    simp [hcatOr, size2_take2]
+  · have ld : 0 < di.length := List.length_pos_iff.mpr hd
+    rw [vcatOr_take2 x ai ci di ha hd]
+    simp only [hcatOr, size2_take2, List.length_append]
+    rw [if_neg (Nat.mul_ne_zero (by omega) (by omega)), if_neg (Nat.mul_ne_zero (by omega) (by omega)), hcat_take2]
+
+/-- the padding fallback of `wrapped_crop_2d` (generated pad amounts and slice bounds, `np.pad(mode="wrap")`) reads the
+periodic window along one axis, for every corner and every size -/
+lemma pad_index (c : Int) (k n : Nat) (hn : 0 < n) :
+    padWrapIndices n (padAmounts c n k).1 (padAmounts c n k).2
+        (padSliceStart c (padAmounts c n k).1 k) (padSliceStop c (padAmounts c n k).1 k)
+      = (List.range k).map fun i => ((c + (i : Nat)) % (n : Int)).toNat := by
+  unfold padAmounts padSliceStart padSliceStop
+  simp only
+  have hpl : intAbs (min c 0) = if c < 0 then -c else 0 := by
+    unfold intAbs; split_ifs <;> omega
+  rw [hpl]
+  obtain ⟨lo, hlo⟩ : ∃ lo : Nat, (lo : Int) = c + (if c < 0 then -c else 0) := ⟨(c + (if c < 0 then -c else 0)).toNat, by
+    split_ifs <;> omega⟩
+  unfold padWrapIndices
+  simp only
+  have hstop : c + (if c < 0 then -c else 0) + (k : Int) = ((lo + k : Nat) : Int) := by push_cast; omega
+  rw [hstop, ← hlo]
+  have hlen : lo + k ≤ ((if c < 0 then -c else 0) + (n : Int) + max (c + (k : Int) - (n : Int)) 0).toNat := by
+    split_ifs at hlo ⊢ <;> omega
+  rw [indices_some lo (lo + k) _ (by omega) hlen, List.map_map]
+  have : lo + k - lo = k := by omega
+  rw [this]
+  apply List.map_congr_left
+  intro i _
+  simp only [Function.comp]
+  congr 2
+  push_cast
+  split_ifs at hlo ⊢ <;> omega
+
+/-- the periodic `s₀ × s₁` window with corner `(c₀, c₁)` of an `n₀ × n₁` array -/
+def window (x : Nat → Nat → α) (n₀ n₁ : Nat) (c₀ c₁ : Int) (s₀ s₁ : Nat) : List (List α) :=
+  take2 x ((List.range s₀).map fun i => ((c₀ + (i : Nat)) % (n₀ : Int)).toNat)
+    ((List.range s₁).map fun j => ((c₁ + (j : Nat)) % (n₁ : Int)).toNat)
+
+/-- `wrapped_crop_2d_index`: for every array, every corner (any number of periods outside the array, either sign) and
+every non-empty size (also larger than the array), `wrapped_crop_2d` returns exactly the periodic window — through
+the four-block assembly when both axes wrap at most once, through the padding fallback otherwise. -/
+theorem wrapped_crop_2d_index (x : Nat → Nat → α) (n₀ n₁ : Nat) (h₀ : 0 < n₀) (h₁ : 0 < n₁) (c₀ c₁ : Int) (s₀ s₁ : Nat)
+    (p₀ : 0 < s₀) (p₁ : 0 < s₁) :
+    wrappedCrop2d x n₀ n₁ (c₀, c₁) (s₀, s₁) = .ok (window x n₀ n₁ c₀ c₁ s₀ s₁) := by
+  unfold wrappedCrop2d window
+  simp only [upperCorner]
+  by_cases w₀ : c₀ % (n₀ : Int) + s₀ ≤ 2 * n₀
+  · by_cases w₁ : c₁ % (n₁ : Int) + s₁ ≤ 2 * n₁
+    · obtain ⟨a, c, ha, hac, hane⟩ := wrapped_slices_index c₀ s₀ n₀ h₀ w₀
+      obtain ⟨b, d, hb, hbd, hbne⟩ := wrapped_slices_index c₁ s₁ n₁ h₁ w₁
+      rw [ha, hb]
+      simp only
+      rw [assemble_eq x _ _ _ _ (hane p₀) (hbne p₁), hac, hbd]
+    · have r₁ := (wrapped_slices_raises_iff c₁ s₁ n₁ h₁).mpr (by omega)
+      rw [r₁]
+      have := pad_index c₀ s₀ n₀ h₀
+      have := pad_index c₁ s₁ n₁ h₁
+      cases hq : wrappedSlices c₀ (c₀ + ↑s₀) ↑n₀ <;> simp_all
+  · have r₀ := (wrapped_slices_raises_iff c₀ s₀ n₀ h₀).mpr (by omega)
+    rw [r₀]
+    have := pad_index c₀ s₀ n₀ h₀
+    have := pad_index c₁ s₁ n₁ h₁
+    simp_all
+
+/-! ### the whole cropping pipeline: batch independence -/
+
+lemma foldl_min_le (l : List Int) (a : Int) : l.foldl min a ≤ a ∧ ∀ c ∈ l, l.foldl min a ≤ c := by
+  induction l generalizing a with
+  | nil => simp
+  | cons b l ih =>
+    simp only [List.foldl_cons, List.mem_cons]
+    obtain ⟨h1, h2⟩ := ih (min a b)
+    refine ⟨le_trans h1 (min_le_left a b), ?_⟩
+    intro c hc
+    rcases hc with rfl | hc
+    · exact le_trans h1 (min_le_right a c)
+    · exact h2 c hc
+
+lemma le_foldl_max (l : List Int) (a : Int) : a ≤ l.foldl max a ∧ ∀ c ∈ l, c ≤ l.foldl max a := by
+  induction l generalizing a with
+  | nil => simp
+  | cons b l ih =>
+    simp only [List.foldl_cons, List.mem_cons]
+    obtain ⟨h1, h2⟩ := ih (max a b)
+    refine ⟨le_trans (le_max_left a b) h1, ?_⟩
+    intro c hc
+    rcases hc with rfl | hc
+    · exact le_trans (le_max_right a c) h1
+    · exact h2 c hc
+
+lemma minL_le (l : List Int) : ∀ c ∈ l, minL l ≤ c := (foldl_min_le l _).2
+lemma le_maxL (l : List Int) : ∀ c ∈ l, c ≤ maxL l := (le_foldl_max l _).2
+
+lemma mapM_ok {β γ : Type} (l : List β) (g : β → Except String γ) (h : β → γ) (hg : ∀ b ∈ l, g b = .ok (h b)) :
+    l.mapM g = .ok (l.map h) := by
+  induction l with
+  | nil => rfl
+  | cons b l ih =>
+    rw [List.mapM_cons, hg b (by simp), ih (fun c hc => hg c (by simp [hc]))]
+    rfl
+
+lemma advIndex_map_range {β : Type} (S : Nat) (f : Nat → β) (k : Int) (h0 : 0 ≤ k) (h1 : k < S) :
+    advIndex ((List.range S).map f) k = .ok (f k.toNat) := by
+  unfold advIndex
+  simp only [List.length_map, List.length_range]
+  have hc : ¬ (k < -(S : Int) ∨ k ≥ (S : Int)) := by omega
+  rw [if_neg hc]
+  have hk : ¬ (k < 0) := by omega
+  simp only [hk, if_false]
+  have : k.toNat < S := by omega
+  simp [List.getElem?_map, List.getElem?_range this]
+
+lemma window_rows (x : Nat → Nat → α) (n₀ n₁ : Nat) (c₀ c₁ : Int) (s₀ s₁ : Nat) :
+    window x n₀ n₁ c₀ c₁ s₀ s₁ = (List.range s₀).map fun i => (List.range s₁).map fun j =>
+      x ((c₀ + (i : Nat)) % (n₀ : Int)).toNat ((c₁ + (j : Nat)) % (n₁ : Int)).toNat := by
+  simp [window, take2, List.map_map, Function.comp]
+
+lemma expectedWindow_eq (x : Nat → Nat → α) (n₀ n₁ : Nat) (w : Nat × Nat) (p : Rat × Rat) :
+    expectedWindow x n₀ n₁ w p
+      = window x n₀ n₁ (pyRint (p.1 - (cropOffset w.1 w.2).1)) (pyRint (p.2 - (cropOffset w.1 w.2).2)) w.1 w.2 := by
+  rw [window_rows]; rfl
+
+lemma batchCrop_window (x : Nat → Nat → α) (n₀ n₁ : Nat) (cc₀ cc₁ : Int) (S₀ S₁ : Nat) (c : Int × Int) (w : Nat × Nat)
+    (h0 : cc₀ ≤ c.1) (h0' : c.1 + w.1 ≤ cc₀ + S₀) (h1 : cc₁ ≤ c.2) (h1' : c.2 + w.2 ≤ cc₁ + S₁) :
+    batchCrop (window x n₀ n₁ cc₀ cc₁ S₀ S₁) (c.1 - cc₀, c.2 - cc₁) w = .ok (window x n₀ n₁ c.1 c.2 w.1 w.2) := by
+  unfold batchCrop
+  rw [window_rows x n₀ n₁ c.1 c.2]
+  apply mapM_ok
+  intro i hi
+  rw [List.mem_range] at hi
+  rw [window_rows, advIndex_map_range _ _ _ (by unfold batchIndexX; omega) (by unfold batchIndexX; omega)]
+  simp only [bind, Except.bind]
+  apply mapM_ok
+  intro j hj
+  rw [List.mem_range] at hj
+  rw [advIndex_map_range _ _ _ (by unfold batchIndexY; omega) (by unfold batchIndexY; omega)]
+  have e0 : cc₀ + (((batchIndexX (i : Int) (c.1 - cc₀)).toNat : Nat) : Int) = c.1 + (i : Int) := by
+    unfold batchIndexX; omega
+  have e1 : cc₁ + (((batchIndexY (j : Int) (c.2 - cc₁)).toNat : Nat) : Int) = c.2 + (j : Int) := by
+    unfold batchIndexY; omega
+  rw [e0, e1]
+
+/-- `reduce_windows_index`: the cropping pipeline of `SMatrixArray._reduce_to_waves` (`minimum_crop` → `wrapped_crop_2d`
+→ `batch_crop_2d`) returns, for every position of the batch, the periodic window whose corner is
+`rint(pixel position − window // 2)` — independently of the other positions of the batch, for every array size,
+window size, batch and positions (inside or any distance outside the cell). -/
+theorem reduce_windows_index (x : Nat → Nat → α) (n₀ n₁ : Nat) (h₀ : 0 < n₀) (h₁ : 0 < n₁) (w : Nat × Nat)
+    (hw₀ : 0 < w.1) (hw₁ : 0 < w.2) (pixel : List (Rat × Rat)) (hp : pixel ≠ []) :
+    reduceWindows x n₀ n₁ w pixel = .ok (pixel.map (expectedWindow x n₀ n₁ w)) := by
+  unfold reduceWindows minimumCrop
+  simp only
+  set off := cropOffset (w.1 : Int) (w.2 : Int) with hoff
+  set corners := pixel.map (fun p => (pyRint (p.1 - off.1), pyRint (p.2 - off.2))) with hcor
+  set cc₀ := minL (corners.map (·.1)) with hcc₀
+  set cc₁ := minL (corners.map (·.2)) with hcc₁
+  set mu₀ := maxL ((corners.map fun c => (c.1 + (w.1 : Int), c.2 + (w.2 : Int))).map (·.1)) with hmu₀
+  set mu₁ := maxL ((corners.map fun c => (c.1 + (w.1 : Int), c.2 + (w.2 : Int))).map (·.2)) with hmu₁
+  have lo₀ : ∀ c ∈ corners, cc₀ ≤ c.1 := fun c hc => minL_le _ _ (List.mem_map.mpr ⟨c, hc, rfl⟩)
+  have lo₁ : ∀ c ∈ corners, cc₁ ≤ c.2 := fun c hc => minL_le _ _ (List.mem_map.mpr ⟨c, hc, rfl⟩)
+  have hi₀ : ∀ c ∈ corners, c.1 + (w.1 : Int) ≤ mu₀ := fun c hc =>
+    le_maxL _ _ (List.mem_map.mpr ⟨(c.1 + (w.1 : Int), c.2 + (w.2 : Int)), List.mem_map.mpr ⟨c, hc, rfl⟩, rfl⟩)
+  have hi₁ : ∀ c ∈ corners, c.2 + (w.2 : Int) ≤ mu₁ := fun c hc =>
+    le_maxL _ _ (List.mem_map.mpr ⟨(c.1 + (w.1 : Int), c.2 + (w.2 : Int)), List.mem_map.mpr ⟨c, hc, rfl⟩, rfl⟩)
+  obtain ⟨c, hc⟩ : ∃ c, c ∈ corners := by
+    cases hq : pixel with
+    | nil => exact absurd hq hp
+    | cons p ps => exact ⟨(pyRint (p.1 - off.1), pyRint (p.2 - off.2)), by rw [hcor, hq]; simp⟩
+  obtain ⟨S₀, hS₀⟩ : ∃ S₀ : Nat, mu₀ - cc₀ = (S₀ : Int) := ⟨(mu₀ - cc₀).toNat, by
+    have := lo₀ c hc; have := hi₀ c hc; omega⟩
+  obtain ⟨S₁, hS₁⟩ : ∃ S₁ : Nat, mu₁ - cc₁ = (S₁ : Int) := ⟨(mu₁ - cc₁).toNat, by
+    have := lo₁ c hc; have := hi₁ c hc; omega⟩
+  have pS₀ : 0 < S₀ := by have := lo₀ c hc; have := hi₀ c hc; omega
+  have pS₁ : 0 < S₁ := by have := lo₁ c hc; have := hi₁ c hc; omega
+  simp only [cropSize, hS₀, hS₁]
+  rw [wrapped_crop_2d_index x n₀ n₁ h₀ h₁ cc₀ cc₁ S₀ S₁ pS₀ pS₁]
+  simp only [bind, Except.bind]
+  rw [mapM_ok _ _ (fun c' => window x n₀ n₁ (c'.1 + cc₀) (c'.2 + cc₁) w.1 w.2)]
+  · congr 1
+    rw [List.map_map, hcor, List.map_map]
+    apply List.map_congr_left
+    intro p _
+    simp only [Function.comp, expectedWindow_eq]
+    congr 1 <;> ring
+  · intro c' hc'
+    rw [List.mem_map] at hc'
+    obtain ⟨d, hd, rfl⟩ := hc'
+    have := batchCrop_window x n₀ n₁ cc₀ cc₁ S₀ S₁ d w (lo₀ d hd) (by have := hi₀ d hd; omega) (lo₁ d hd)
+      (by have := hi₁ d hd; omega)
+    simp only [sub_add_cancel]
+    exact this
+
+/- Full statement for interpolation > 1 (not proved as a whole): for every scattering matrix, batch of positions and CTF,
+   `SMatrixArray.reduce` returns, for position `p`, the window `w₀ × w₁` of the full superposition `Σ_k c_k(p) S_k` whose
+   corner is `rint(p / sampling − w // 2)` taken periodically, independently of the other positions of the batch; in
+   vacuum this window is the probe of the window-sized cell.
+   Proved (`reduce_windows_index`, restated below for a superposition plane): the whole cropping pipeline
+   `minimum_crop → wrapped_crop_2d (block assembly or padding fallback) → batch_crop_2d`, applied to any plane, returns
+   exactly those periodic windows, for every array and window size, every batch and every position.
+   Missing: (i) the code crops each plane `S_k` first, combines the crops with `tensordot` and then cuts the batch windows;
+   that this equals cropping the combined plane is pointwise linearity of a selection and is only covered by
+   correspondence with the real `_reduce_to_waves`; (ii) `Model/Prism.lean` is a hand model of the numpy semantics (slice
+   clamping, `.size == 0` shortcuts, `concatenate`, `np.pad(mode="wrap")`, advanced indexing) around the generated
+   expressions, tied by exact differential correspondence; (iii) the physical statements (vacuum window = probe of the
+   window-sized cell; with a potential PRISM interpolation is an approximation) are checked by the conformance oracle. -/
+theorem reduce_window_partial {κ : Type} (K : Finset κ) (c : κ → ℂ) (S : κ → Nat → Nat → ℂ)
+    (n₀ n₁ : Nat) (h₀ : 0 < n₀) (h₁ : 0 < n₁) (w : Nat × Nat) (hw₀ : 0 < w.1) (hw₁ : 0 < w.2)
+    (pixel : List (Rat × Rat)) (hp : pixel ≠ []) :
+    reduceWindows (fun i j => ∑ k ∈ K, c k * S k i j) n₀ n₁ w pixel
+      = .ok (pixel.map (expectedWindow (fun i j => ∑ k ∈ K, c k * S k i j) n₀ n₁ w)) :=
+  reduce_windows_index _ n₀ n₁ h₀ h₁ w hw₀ hw₁ pixel hp
 
 end Crop
 
@@ -377,5 +659,9 @@ example : (AbtemVerif.Gen.Prism.wrappedSlices (-19) (-14) 8).toOption.map
     (fun p => AbtemVerif.Prism.PySlice.indices p.1 8 ++ AbtemVerif.Prism.PySlice.indices p.2 8) = some [5, 6, 7, 0, 1] := by
   decide +kernel
 example : ((-19 : Int) % ((8 : Nat) : Int) + ((5 : Nat) : Int) ≤ 2 * ((8 : Nat) : Int)) := by decide
+-- two positions far apart (one 3 cells to the left): the hypotheses of `reduce_windows_index` are satisfiable
+example : AbtemVerif.Prism.reduceWindows (fun i j => (4 * i + j : Nat)) 4 4 (2, 2) [(1, 1), (-11, 5/2)]
+    = .ok ([((1 : Rat), (1 : Rat)), (-11, 5/2)].map (AbtemVerif.Prism.expectedWindow (fun i j => (4 * i + j : Nat)) 4 4 (2, 2))) :=
+  reduce_windows_index _ 4 4 (by decide) (by decide) (2, 2) (by decide) (by decide) _ (by simp)
 
 end AbtemVerif.Props.C06
